@@ -234,6 +234,7 @@ _METHODS = {
     'all': _reduce('all'), 'item': _reduce('item'),
     'unsqueeze': _unsqueeze, 'squeeze': _squeeze, 'expand_as': _expand_as,
     'is_contiguous': lambda libs, t: t.contig,
+    'repeat_interleave': lambda libs, t, repeats, dim=None: libs._repeat_interleave(t, repeats, dim),
     'chunk': lambda libs, t, chunks, dim=0: libs._torch_chunk(t, chunks, dim),
     'split': lambda libs, t, size, dim=0: libs._torch_split(t, size, dim),
     'narrow': lambda libs, t, dim, start, length: libs._torch_narrow(t, dim, start, length),
@@ -267,7 +268,7 @@ def get_sym(libs, s, name):
             return r
         return cast
     if name in ('ravel', 'flatten', 'copy', 'reshape', 'view', 'transpose', 'permute', 'contiguous', 'clone',
-                'detach', 'repeat', 'squeeze', 'unsqueeze', 'to', 'astype', 'numel', 'dim', 'tobytes', 'tolist'):
+                'detach', 'repeat', 'squeeze', 'unsqueeze', 'to', 'astype', 'numel', 'dim', 'tobytes', 'tolist', 'flip'):
         return getattr(s, name)
     if name == 'new_zeros':
         raise AnalysisError('unsupported', 'new_zeros on a filter tensor')
